@@ -869,6 +869,9 @@ func genSyCase(rng *rand.Rand) *syCase {
 		}
 		c.pods = append(c.pods, genSyPod(rng, c, o, revNames))
 	}
+	if rng.Intn(40) == 0 { // a far-away pod, up to the largest ordinal a pod name can carry
+		c.pods = append(c.pods, genSyPod(rng, c, pick(rng, 2147483647, 2147483646, 1000000), revNames))
+	}
 	if c.selAll {
 		for i := range c.pods {
 			c.pods[i].sel = true
